@@ -19,7 +19,7 @@ fn replay_case(prop: &str, case: &Value) -> Vec<Violation> {
         "pair" => props::pair::replay(case),
         "rename" => props::rename::replay(case),
         "history" => props::history::replay(case),
-        "listing" | "listing-unordered" => props::listing::replay(prop, case),
+        "listing" | "listing-unordered" | "listing-load" => props::listing::replay(prop, case),
         "layout11" | "layout12" | "layout13" => props::layout::replay(case),
         "marker" | "marker-dup" => props::marker::replay(case),
         "cli" => props::cli::replay(prop, case),
